@@ -145,6 +145,108 @@ def is_inline(desc) -> bool:
 
 
 # ---------------------------------------------------------------------------------------
+# derivations and in-place edits: what the caller asked for, as a description (the oracle of F is
+# Spec.fields of THIS description; it never looks at the object the library produced)
+# ---------------------------------------------------------------------------------------
+def conv_kw(kw):
+    """JSON keyword arguments -> real keyword arguments (enum members, PlacementData, bytes)."""
+    gc = gcmod()
+    out = {}
+    for k, v in kw.items():
+        if k == "placement":
+            out[k] = None if v is None else gc.PlacementData(**v)
+        elif k == "data":
+            out[k] = data_bytes(v)
+        else:
+            out[k] = _val(k, v)
+    return out
+
+
+def with_fields(desc, kw):
+    """The description after `field = value` for every item of kw (None = the field becomes unset)."""
+    res = {"type": desc["type"], "f": dict(desc.get("f") or {})}
+    if "data" in desc:
+        res["data"] = desc["data"]
+    for k, v in kw.items():
+        if k == "data":
+            res["data"] = v
+        elif k == "placement":
+            res["f"][k] = None if v is None else dict(v)
+        else:
+            res["f"][k] = v
+    return res
+
+
+def apply_op(desc, op):
+    """Description of the command a derivation entry point must return (None = no command)."""
+    how = op["how"]
+    if how == "clone":
+        return with_fields(desc, op["kw"])
+    if how == "pure":
+        return with_fields(desc, {"placement": None})
+    if how == "put":
+        f = desc.get("f") or {}
+        if f.get("placement") is None:
+            return None
+        pf = {k: f.get(k) for k in ("image_id", "image_number", "quiet")}
+        pf.update(f["placement"])
+        return {"type": "P", "f": pf}
+    raise ValueError(how)
+
+
+def real_op(obj, op):
+    how = op["how"]
+    if how == "clone":
+        return obj.clone_with(**conv_kw(op["kw"]))
+    if how == "pure":
+        return obj.get_pure_transmit_command()
+    if how == "put":
+        return obj.get_put_command()
+    raise ValueError(how)
+
+
+def upd_tokens(kw) -> str:
+    """clone_with keyword arguments in the driver's update syntax."""
+    out = []
+    for k, v in kw.items():
+        if k == "data":
+            out.append("data:" + hx(data_bytes(v)))
+        elif v is None:
+            out.append(f"{k}:None")
+        elif k == "placement":
+            out.append("placement:new")
+            for pk, pv in v.items():
+                if pv is not None:
+                    out.append(f"p.{pk}:{_tokv(pv)}")
+        elif k == "omit_action":
+            out.append(f"omit_action:{_tokv(bool(v))}")
+        else:
+            out.append(f"{k}:{_tokv(v)}")
+    return " ".join(out)
+
+
+def ser(obj):
+    """(header, content, whole escape) of a real command, hex."""
+    gc = gcmod()
+    return (hx(obj.header_to_bytes()), hx(obj.content_to_bytes()), hx(obj.to_bytes(gc.GraphicsCommand.DEFAULT_TEMPLATE)))
+
+
+def model_ser(d, tok):
+    return tuple(d.ask_many([f"header {tok}", f"content {tok}", f"tobytes 0 {tok}"]))
+
+
+def judge(ctx, d, c, what, full_hex, desc, keypfx="c06-"):
+    """F: the emitted escape parses back to exactly the fields and payload of `desc`."""
+    tok = tokens(desc)
+    r = d.ask(f"spec_checkcmd 0 {full_hex} {tok}")
+    if r != "ok":
+        ctx.violation(what, c, {"reason": r, "emitted": full_hex[:400], "spec_fields": d.ask(f"spec_fields {tok}"), "asked_for": desc},
+                      key=keypfx + r)
+        return False
+    return True
+
+
+# ---------------------------------------------------------------------------------------
 def check_case(ctx: Ctx, c: dict):
     gc = gcmod()
     d = ctx.driver("drv_cmd")
@@ -173,6 +275,36 @@ def check_case(ctx: Ctx, c: dict):
             return
         model = tuple(d.ask_many([f"header {tok}", f"content {tok}", f"tobytes 0 {tok}"]))
         ctx.eq("header_to_bytes/content_to_bytes/to_bytes", c, impl, model)
+        if desc["type"] == "T" and c.get("via") in ("send", "split"):
+            # transmit commands whose payload is a NAME (file, temporary file, shared memory object) reach the command
+            # stream through send()/split() as well: one escape, the fields that were set, the whole name.
+            # (inline payloads are chunked there: that is C05's claim, only the correspondence is looked at)
+            inline = is_inline(desc)
+            ctx.count("transmit-via:%s:%s" % (c["via"], "inline" if inline else (desc.get("f") or {}).get("medium")))
+            if c["via"] == "send":
+                out = io.BytesIO()
+                raised = False
+                try:
+                    obj.send(out, gc.GraphicsCommand.DEFAULT_TEMPLATE, max_size=c.get("max"))
+                except ValueError:
+                    raised = True
+                m = d.ask(f"send 0 {c.get('max') if c.get('max') is not None else 'none'} {tok}")
+                ctx.eq("send(transmit) raises ValueError", c, raised, m == "err")
+                ctx.count("transmit-send:" + ("error" if raised else "sent"))
+                if not raised and m != "err":
+                    ctx.eq("send(transmit) command stream", c, hx(out.getvalue()), "".join(m.split(" ")))
+                    if not inline:
+                        full = out.getvalue()
+                        ctx.count("name-vs-budget:" + ("longer" if c.get("max") is not None and 4 * len(data) // 3 + len(hdr) + 11 > c["max"] else "fits"))
+            else:
+                parts = list(obj.split(max_payload_size=c["n"]))
+                ctx.eq("split(transmit)", c, [hx(p.content_to_bytes()) for p in parts], d.ask(f"split {c['n']} {tok}").split(" "))
+                if not inline:
+                    if len(parts) != 1:
+                        ctx.violation("a name payload (non-direct medium) is cut into several commands by split()", c,
+                                      {"parts": [p.content_to_bytes()[:120].hex() for p in parts[:4]], "n": c["n"]}, key="c06-name-split")
+                    else:
+                        full = parts[0].to_bytes(gc.GraphicsCommand.DEFAULT_TEMPLATE)
         if c.get("via") == "send" and desc["type"] != "T":
             out = io.BytesIO()
             seen = []
@@ -186,8 +318,135 @@ def check_case(ctx: Ctx, c: dict):
         if r != "ok":
             ctx.violation("emitted escape code does not parse back to the command's fields", c,
                           {"reason": r, "emitted": full[:200].hex(), "spec_fields": d.ask(f"spec_fields {tok}")}, key="c06-" + r)
+    elif k == "derive":
+        _check_derive(ctx, d, c)
+    elif k == "mutate":
+        _check_mutate(ctx, d, c)
     else:
         raise ValueError(k)
+
+
+def _check_derive(ctx, d, c):
+    """Commands obtained through clone_with / get_pure_transmit_command / get_put_command: the derived command must
+    serialise to the fields the caller asked for (an argument None = unset, 0 / False = set), the original stays as it was."""
+    desc = c["cmd"]
+    ctx.count("type:" + desc["type"])
+    orig = build(desc)
+    try:
+        before = ser(orig)
+        cur_obj, cur_desc = orig, desc
+        for i, op in enumerate(c["ops"]):
+            ctx.count("derive:" + op["how"])
+            if op["how"] == "clone":
+                for kk, vv in op["kw"].items():
+                    was = (cur_desc.get("f") or {}).get(kk) if kk != "data" else True
+                    ctx.count("clone-arg:%s" % ("None-on-set-field" if vv is None and was is not None else "None-on-unset-field" if vv is None else
+                                                "falsy" if vv in (0, False) else "value"))
+            want = apply_op(cur_desc, op)
+            got = real_op(cur_obj, op)
+            at = dict(c, at=i)
+            if op["how"] == "clone":
+                m = d.ask(f"clone {tokens(cur_desc)} | {upd_tokens(op['kw'])}")
+            elif op["how"] == "pure":
+                m = d.ask(f"pure {tokens(cur_desc)}")
+            else:
+                m = d.ask(f"putcmd {tokens(cur_desc)}")
+            if want is None or got is None or m == "none":
+                ctx.eq("derived command is None", at, got is None, m == "none")
+                if (got is None) != (want is None):
+                    ctx.violation("get_put_command: a command without placement has no put command, one with placement has", at,
+                                  {"returned_none": got is None}, key="c06-put-none")
+                break
+            impl = ser(got)
+            ctx.eq("derived command: header/content/to_bytes", at, impl, tuple(m.split(" ")))
+            if tuple(m.split(" ")) != model_ser(d, tokens(want)):     # the harness's reading of the request vs the model's record update
+                ctx.mismatch("model clone_with vs description of the request", at, m, tokens(want))
+            if not judge(ctx, d, at, "derived command does not decode to the fields the caller asked for (" + op["how"] + ")", impl[2], want):
+                break
+            cur_obj, cur_desc = got, want
+        after = ser(orig)
+    except Exception as e:  # the model has no error path here
+        ctx.mismatch("derivation / serialisation raised", c, repr(e)[:200], "no error")
+        return
+    ctx.eq("original command after deriving from it", c, after, before)
+    judge(ctx, d, c, "original command no longer decodes to its fields after a command was derived from it", after[2], desc)
+
+
+def _check_mutate(ctx, d, c):
+    """The same object serialised again after in-place edits (commands are mutable dataclasses): every serialisation must
+    decode to the fields set AT THAT MOMENT."""
+    gc = gcmod()
+    desc = c["cmd"]
+    typ = desc["type"]
+    ctx.count("type:" + typ)
+    data = data_bytes(desc.get("data"))
+    if typ == "T" and c.get("stream") == "bytesio":
+        obj = build(desc, data_override=io.BytesIO(data))
+        obj.data.seek(len(data) // 2)
+    else:
+        obj = build(desc)
+    cur = with_fields(desc, {})
+    # a second command sharing the PlacementData object
+    other = other_desc = None
+    if typ == "T" and c.get("shared") and obj.placement is not None:
+        other_desc = {"type": "T", "f": {"image_number": 3, "placement": cur["f"]["placement"]}, "data": {"hex": "00ff"}}
+        other = gc.TransmitCommand(image_number=3, placement=obj.placement, data=b"\x00\xff")
+        ctx.count("mutate:shared-placement")
+
+    def stage(i):
+        at = dict(c, at=i)
+        for o, ds, nm in ((obj, cur, "command"), (other, other_desc, "command sharing the placement object")):
+            if o is None:
+                continue
+            impl = ser(o)
+            ctx.eq(f"serialisation #{i + 1} of the same {nm}", at, impl, model_ser(d, tokens(ds)))
+            full = impl[2]
+            if c.get("via") == "send" and not is_inline(ds):
+                out = io.BytesIO()
+                o.send(out, gc.GraphicsCommand.DEFAULT_TEMPLATE, max_size=None)
+                ctx.eq(f"send #{i + 1} of the same {nm}", at, hx(out.getvalue()), full)
+                full = hx(out.getvalue())
+            if not judge(ctx, d, at, f"serialisation #{i + 1} of the same {nm} does not decode to the fields set at that moment", full, ds):
+                return False
+        return True
+
+    try:
+        if not stage(-1):
+            return
+        for i, st in enumerate(c["steps"]):
+            how = st["how"]
+            ctx.count("mutate:" + how)
+            if how == "none":
+                pass
+            elif how == "set":
+                for kk, vv in conv_kw(st["kw"]).items():
+                    setattr(obj, kk, vv)
+                cur = with_fields(cur, st["kw"])
+            elif how == "pset":
+                if typ != "T" or obj.placement is None:
+                    ctx.count("mutate:pset-skipped")
+                    continue
+                for kk, vv in st["kw"].items():
+                    setattr(obj.placement, kk, vv)
+                pl = cur["f"]["placement"]
+                pl.update(st["kw"])                     # in place: the description shared with `other` follows, as the object does
+            elif how == "set_placement":
+                obj.set_placement(**st["kw"])
+                cur = with_fields(cur, {"placement": st["kw"]})
+            elif how == "set_data":
+                obj.set_data(data_bytes(st["data"]))
+                cur = with_fields(cur, {"data": st["data"]})
+            elif how == "set_filename":
+                obj.set_filename(st["text"])
+                cur = with_fields(cur, {"data": {"text": st["text"]}})
+            else:
+                raise ValueError(how)
+            if not stage(i):
+                return
+    except ValueError:
+        raise
+    except Exception as e:  # the model has no error path here
+        ctx.mismatch("in-place edit / serialisation raised", c, repr(e)[:200], "no error")
 
 
 def _nset(desc):
